@@ -148,6 +148,25 @@ open ActixNet.ServerCmd
 theorem signal_map : Src.mapSignalGraceful .Int = false ∧ Src.mapSignalGraceful .Quit = false ∧ Src.mapSignalGraceful .Term = true ∧
     ∀ sig, cmdOfSignal sig = .stop (Src.mapSignalGraceful sig) none := ⟨rfl, rfl, rfl, fun _ => rfl⟩
 
+/-- the events of one named step of `handle_cmd(Stop)` (names as produced by the T1 span `srv_handle_stop_order`) -/
+def stepEvs (workers : List Nat) (g : Bool) (comp : Option Nat) (guard : String) : String → List Ev
+  | "wake_stop" => [.wake .stop]
+  | "stop_workers" => workers.map (.stopWorker · g)
+  | "await_workers" => if guard = "graceful" then (if g then workers.map .awaitWorker else []) else workers.map .awaitWorker
+  | "join_accept" => [.joinAccept]
+  | "completion" => ackEv comp
+  | _ => []
+
+/-- **The model's `Stop` handling is the source's** (T1, structural): the steps of the `Stop` arm of
+`handle_cmd`, in the order and under the guard read from server.rs on this run, produce exactly the
+events of the model; the command loop still leaves on `stopping`; `ServerHandle::stop` still sends
+its command before building the future. -/
+theorem source_shape (workers : List Nat) (g : Bool) (comp : Option Nat) :
+    stopEvs workers g comp = Src.hcStopOrder.flatMap (stepEvs workers g comp Src.hcAwaitGuard) ∧
+    Src.srRunBreaksOnStopping = true ∧ Src.hsStopSendsEagerly = true := by
+  refine ⟨?_, rfl, rfl⟩
+  simp [stopEvs, stepEvs, Src.hcStopOrder, Src.hcAwaitGuard, List.flatMap]
+
 /-- **The shape of every run that stops.**  Commands before the first `Stop` are handled in order;
 the `Stop` wakes the accept thread with `Stop`, sends `Stop` to every worker, (only if graceful)
 waits for every worker's reply channel, joins the accept thread, acks the completion; then `run`
